@@ -45,7 +45,7 @@ Fixpoint lit_alts (cfg : lexcfg) (v : value) : option (list (list ltok)) :=
       | _ => Some [[TNum (Z_to_str z)]]
       end
   | VBool b => Some [[TWord (if b then L "true" else L "false")]; [TNum (if b then L "1" else L "0")]]
-  | VNone => Some [[TWord (L "null")]]
+  | VNone => Some [[TWord (L "null")]; [TWord (L "NULL")]]
   | VNumText s =>
       match lexc cfg s with
       | Some ts => if is_num_lit ts then Some [ts; [TOp (L "(")] ++ ts ++ [TOp (L ")")]] else Some []
